@@ -18,6 +18,12 @@ def opt_templates():
     out.append(("last-switch-then-jump", "형.♥ 항. 형. 항..... 형... 흑.... 형.??♥!", ""))
     out.append(("private-stacks", "형.. 흑..... 형... 흑....... 하앙. 흑..... 항.", ""))
     out.append(("shared-slot", "형.. 항......... 형... 항........ 흑......... 항. 흑........ 항.", ""))
+    # the pre-executed prefix has written to a stream AND leaves data on the stacks, which the rest of the program uses after a read
+    for stream in (1, 2):
+        for keep in (3, 4, 7):
+            sel = "" if keep == 3 else " 흑" + "." * keep
+            out.append(("preexec-output-and-data",
+                        "형" + "." * 66 + sel + " 형" + "." * 67 + " 형" + "." * 68 + " 항" + "." * stream + " 흑 항. 흑" + "." * keep + " 항. 항. 항.", "x\n"))
     for k in (99, 100, 101, 102, 250):
         out.append(("loop-%d" % k, G.count_loop(k), ""))
     out.append(("loop-then-read", G.count_loop(5) + " 흑 항.", "q"))
